@@ -153,18 +153,20 @@ pub fn check_cwe(
     for sub in project.program.term.subs.values() {
         for (block, jump, symbol) in get_callsites(sub, &symbol_map) {
             if block_contains_multiplication(block) {
-                let parms = match symbol.name.as_str() {
-                    "calloc" => {
+                // Ghidra may not be supplying (complete) parameter information for the symbol,
+                // in which case all known parameters are checked.
+                let parms = match (symbol.name.as_str(), symbol.parameters.as_slice()) {
+                    ("calloc", [count_param, size_param, ..]) => {
                         if calloc_parm_mul_is_top(
                             pointer_inference_results,
                             &jump.tid,
-                            vec![&symbol.parameters[0], &symbol.parameters[1]],
+                            vec![count_param, size_param],
                         ) {
                             cwe_warnings.push(generate_cwe_warning(&jump.tid, symbol));
                         };
-                        vec![&symbol.parameters[0], &symbol.parameters[1]]
+                        vec![count_param, size_param]
                     }
-                    "realloc" => vec![&symbol.parameters[1]],
+                    ("realloc", [_, size_param, ..]) => vec![size_param],
                     _ => symbol.parameters.iter().collect(),
                 };
 
